@@ -278,6 +278,26 @@ Example C17_generated_EstimatedSize_rounding :
      (repeat (GenBuildParams.mkBridge 1 [] 0) 7) [GenBuildParams.mkClaim 1 []] 0%Z None 1)) = 3583.
 Proof. vm_compute. reflexivity. Qed.
 
+(* Gen/GenLimitCert.v: baseFlow.limitCertSize, GENERATED from aggsender/flows/flow_base.go on top of the generated build-parameter
+   methods. The Go `for { }` loop is a fixpoint on explicit fuel; what is returned when the fuel runs out or when nil is dereferenced are
+   parameters. For every value of both parameters: the translated function computes the model's limit_loop with the model's size
+   estimate, and with the fuel the model proves sufficient it returns a certificate - the one of which C17_limit_keeps_first_and_is_maximal,
+   C17_limit_result_is_filter and C17_exceeds_limit_only_if_single_block speak (instantiated at size := estimated_size). *)
+From Verif Require Gen.GenLimitCert Proofs.GenAgreeLimitCert.
+Theorem C17_generated_limitCertSize_is_model : forall (max : N) (nofuel panic : option GenBuildParams.CertificateBuildParams * GoNum.gerr)
+  (fuel : nat) (c : GenBuildParams.CertificateBuildParams), GenAgreeLimitCert.claims_ok c ->
+  match limit_loop estimated_size max fuel (GenAgreeBuildParams.abs c) with
+  | LDone p => exists c', GenLimitCert.limitCertSize max nofuel panic fuel (Some c) = (Some c', GoNum.EOK) /\ GenAgreeBuildParams.abs c' = p
+  | LErr _ => GenLimitCert.limitCertSize max nofuel panic fuel (Some c) = (None, GoNum.EFail)
+  | LOutOfFuel => GenLimitCert.limitCertSize max nofuel panic fuel (Some c) = nofuel
+  end.
+Proof. exact GenAgreeLimitCert.limitCertSize_agree. Qed.
+Theorem C17_generated_limitCertSize_returns_the_limit : forall (max : N) (nofuel panic : option GenBuildParams.CertificateBuildParams * GoNum.gerr)
+  (c : GenBuildParams.CertificateBuildParams), GenAgreeLimitCert.claims_ok c -> wf_span (GenAgreeBuildParams.abs c) ->
+  exists c', GenLimitCert.limitCertSize max nofuel panic (limit_fuel (GenAgreeBuildParams.abs c)) (Some c) = (Some c', GoNum.EOK) /\
+             limit_cert_size estimated_size max (GenAgreeBuildParams.abs c) = LDone (GenAgreeBuildParams.abs c').
+Proof. exact GenAgreeLimitCert.limitCertSize_returns_the_limit. Qed.
+
 (* Print Assumptions walks the whole dependency cone each time (0.8 s per call here); the theorems are therefore
    grouped in four tuples, the assumptions of a tuple being the union of the assumptions of its components *)
 Definition C17_all_range := (C17_range_is_filter, C17_range_strict_is_filter, C17_range_cases).
@@ -294,5 +314,6 @@ Print Assumptions C17_all_gap.
 Print Assumptions C17_generated_gap_is_model.
 Print Assumptions C17_generated_gap_empty_iff_touching.
 Definition C17_all_generated_params := (C17_generated_Range_is_model, C17_generated_Range_keeps_elements_whole, C17_generated_EstimatedSize_is_model,
-  C17_generated_counts_are_model, C17_generated_nil_receiver, C17_generated_MaxDepositCount_is_last).
+  C17_generated_counts_are_model, C17_generated_nil_receiver, C17_generated_MaxDepositCount_is_last,
+  C17_generated_limitCertSize_is_model, C17_generated_limitCertSize_returns_the_limit).
 Print Assumptions C17_all_generated_params.
